@@ -585,7 +585,7 @@ package pub
 //@ loop 5 [C02] invariant segment_to: (forall j Int :: {props[activity]["ActivityStreamsTo"].At(j)} 0 <= j && j < plen(props[activity]["ActivityStreamsTo"]) ==> r[j] == elemId(props[activity]["ActivityStreamsTo"].At(j)))
 //@ loop 4 [C02] invariant segment_cc: (forall j Int :: {props[activity]["ActivityStreamsCc"].At(j)} 0 <= j && j < plen(props[activity]["ActivityStreamsCc"]) ==> r[plen(props[activity]["ActivityStreamsTo"]) + plen(props[activity]["ActivityStreamsBto"]) + j] == elemId(props[activity]["ActivityStreamsCc"].At(j)))
 //@ loop 5 [C02] invariant segment_cc: (forall j Int :: {props[activity]["ActivityStreamsCc"].At(j)} 0 <= j && j < plen(props[activity]["ActivityStreamsCc"]) ==> r[plen(props[activity]["ActivityStreamsTo"]) + plen(props[activity]["ActivityStreamsBto"]) + j] == elemId(props[activity]["ActivityStreamsCc"].At(j)))
-//@ [C02] at call pub.filterURLs#1: assert every_addressed_id_is_collected: len($arg0) == plen(props[activity]["ActivityStreamsTo"]) + plen(props[activity]["ActivityStreamsBto"]) + plen(props[activity]["ActivityStreamsCc"]) + plen(props[activity]["ActivityStreamsBcc"]) + plen(props[activity]["ActivityStreamsAudience"]) && (forall j Int :: {props[activity]["ActivityStreamsTo"].At(j)} 0 <= j && j < plen(props[activity]["ActivityStreamsTo"]) ==> $arg0[j] == elemId(props[activity]["ActivityStreamsTo"].At(j))) && (forall j Int :: {props[activity]["ActivityStreamsCc"].At(j)} 0 <= j && j < plen(props[activity]["ActivityStreamsCc"]) ==> $arg0[plen(props[activity]["ActivityStreamsTo"]) + plen(props[activity]["ActivityStreamsBto"]) + j] == elemId(props[activity]["ActivityStreamsCc"].At(j))) && (forall j Int :: {props[activity]["ActivityStreamsAudience"].At(j)} 0 <= j && j < plen(props[activity]["ActivityStreamsAudience"]) ==> $arg0[plen(props[activity]["ActivityStreamsTo"]) + plen(props[activity]["ActivityStreamsBto"]) + plen(props[activity]["ActivityStreamsCc"]) + plen(props[activity]["ActivityStreamsBcc"]) + j] == elemId(props[activity]["ActivityStreamsAudience"].At(j)))
+//@ [C02] at call pub.filterURLs#1: assert every_addressed_id_is_collected: len($arg0) == plen(props[activity]["ActivityStreamsTo"]) + plen(props[activity]["ActivityStreamsBto"]) + plen(props[activity]["ActivityStreamsCc"]) + plen(props[activity]["ActivityStreamsBcc"]) + plen(props[activity]["ActivityStreamsAudience"]) && (forall j Int :: {props[activity]["ActivityStreamsTo"].At(j)} 0 <= j && j < plen(props[activity]["ActivityStreamsTo"]) ==> $arg0[j] == elemId(props[activity]["ActivityStreamsTo"].At(j))) && (forall j Int :: {props[activity]["ActivityStreamsCc"].At(j)} 0 <= j && j < plen(props[activity]["ActivityStreamsCc"]) ==> $arg0[plen(props[activity]["ActivityStreamsTo"]) + plen(props[activity]["ActivityStreamsBto"]) + j] == elemId(props[activity]["ActivityStreamsCc"].At(j))) && (forall j Int :: {props[activity]["ActivityStreamsAudience"].At(j)} 0 <= j && j < plen(props[activity]["ActivityStreamsAudience"]) ==> $arg0[plen(props[activity]["ActivityStreamsTo"]) + plen(props[activity]["ActivityStreamsBto"]) + plen(props[activity]["ActivityStreamsCc"]) + plen(props[activity]["ActivityStreamsBcc"]) + j] == elemId(props[activity]["ActivityStreamsAudience"].At(j))) && props == old(props) && ASHP == old(ASHP) && ASH == old(ASH) && idval == old(idval)
 
 //@ func (*pub.sideEffectActor).resolveActors
 //@ params a, c, t, r, depth, maxDepth
